@@ -549,9 +549,9 @@ def oracle_c12(world, result):
     # the same by INTENT: every inexact leaf under a node handed to NonTrainable / non_trainable
     intended = sorted({i for f in result["freeze_applied"] for i in f.get("leaf_idx", [])})
     P["intended_frozen_leaves"] = len(intended)
-    a0 = jax.tree_util.tree_leaves(m0)
+    a0 = E.array_leaves(m0)
     if intended and rm is not None and t0 == t1:
-        a1 = jax.tree_util.tree_leaves(rm)
+        a1 = E.array_leaves(rm)
         for i in intended:
             if not _leaf_equal(a0[i], a1[i]):
                 V.append({"clause": "c12.frozen_leaf_moved", "detail": f"leaf #{i} lies under a node passed to NonTrainable/non_trainable but changed during training: {_np(a0[i]).ravel()[:3]} -> {_np(a1[i]).ravel()[:3]}"})
@@ -568,7 +568,7 @@ def oracle_c12(world, result):
                 moved_any = True
                 break
         if not moved_any and intended:
-            ai = jax.tree_util.tree_leaves(sm)
+            ai = E.array_leaves(sm)
             for j in intended:
                 if not _leaf_equal(a0[j], ai[j]):
                     V.append({"clause": "c12.frozen_leaf_moved", "detail": f"leaf #{j} (under a node passed to NonTrainable/non_trainable) differs from its initial value in the parameters offered at step {i}"})
